@@ -50,9 +50,9 @@
 use crate::common::*;
 use crate::m_line::{pts_digest, STARTS};
 use embedded_graphics::{
-    pixelcolor::BinaryColor,
+    pixelcolor::{BinaryColor, Rgb565},
     prelude::*,
-    primitives::{Line, PrimitiveStyle},
+    primitives::{Line, Polyline, PrimitiveStyle, PrimitiveStyleBuilder, Rectangle, StrokeAlignment, Triangle},
 };
 use std::collections::HashSet;
 
@@ -130,7 +130,12 @@ impl Module for M {
          (the non-overflowing range of thickness_threshold); non-trivial = width >= 2; distinct = distinct op text"
     }
 
-    fn generate(&self, _pid: &str, tier: Tier, rng: &mut Rng, emit: &mut dyn FnMut(String)) {
+    fn generate(&self, pid: &str, tier: Tier, rng: &mut Rng, emit: &mut dyn FnMut(String)) {
+        if pid != "C17" {
+            // joins streams (C02, C07, C19); the C17 generation below is unchanged
+            generate_joins(pid, tier, rng, emit);
+            return;
+        }
         for dx in -2..=2 {
             for dy in -2..=2 {
                 emit(format!("thick.points 1 -1 {} {} 0", 1 + dx, -1 + dy));
@@ -216,7 +221,847 @@ impl Module for M {
                 });
                 fmt_rect(&bb)
             }
+            "thick.polyline" => exec_polyline(&mut t, op, ctx),
+            "thick.triangle" => exec_triangle(&mut t, op, ctx),
             _ => panic!("unknown op {}", op),
         }
     }
+}
+
+// =============================================================================================
+// Joins: stroked polylines (any width) and stroked triangles — streams `thick.polyline`,
+// `thick.triangle` (properties C02, C07, C19). Model: lean/EG/Model/{LinearEquation, Intersection,
+// LineJoin, ThickSegment, ThickPolyline, ThickTriangle}.lean, driver lean/EG/Driver/Thick.lean.
+//
+//   thick.polyline tx ty n x1 y1 .. xn yn w
+//       `Polyline::new(&[v1..vn]).translate((tx,ty)).into_styled(PrimitiveStyle::with_stroke(On, w))`
+//       -> `bb=<bounding_box()> k=<kinds of the interior joins> s=<number of skeleton segments>
+//           draw=<call log of draw() on the native-fill target R2> px=<pixels()>`
+//          k:    one letter per interior join: M miter, b/B bevel (outer side left/right), d/D degenerate, C colinear;
+//                `-` if there is none. k and s come from `joins_port` (the join code is private) and are compared
+//                with the model's own classification; they feed the distribution counters.
+//          draw: `-` (no call) | `di:<points digest>` (one draw_iter call) |
+//                `fs:<digest of the fill_solid rectangles as the point list tl,(w,h),tl,(w,h),..>`
+//          px:   points digest of `pixels()` in emission order (format of `m_line::pts_digest`)
+//
+//   thick.triangle dx dy x1 y1 x2 y2 x3 y3 w align fill stroke
+//       `Triangle::new(v1, v2, v3).translate((dx,dy)).into_styled(style)`, style = stroke width w, alignment
+//       (0 = Inside, 1 = Center, 2 = Outside), fill / stroke colour (`-` or the Rgb565 raw value)
+//       -> `bb=<bounding_box()> k=<kinds of the three joins of the clockwise-sorted triangle> c=<is_collapsed: 0/1>
+//           draw=<fill_solid calls of draw() on R2 as the point list tl,(w,colour),..; `-` = no call>
+//           px=<pixels() in emission order as the point list p,(colour,0),..>` (digests as above)
+//
+// Oracles (property texts as predicates on the real results; the logic of m_styled.rs):
+//   C02:outside-bbox:thick-polyline      every pixel drawn (draw() and pixels()) lies inside bounding_box()
+//   C01:pixels-vs-draw:thick-polyline    pixels() and draw() paint the same set
+//   C07:translate-field:thick-polyline   picture / non-empty bounding box of the polyline with `translate` = t
+//                                        is the picture / box of the untranslated polyline shifted by t
+//   C07:translate-mut-differs:thick-polyline
+//   C07:draw-not-shifted:thick-polyline / C07:bbox-not-shifted:thick-polyline
+//                                        the polyline with MOVED VERTICES (v + t, translate = 0) paints the shifted
+//                                        picture and has the shifted box (since /repo ab2e75b join intersections are
+//                                        rounded half up, independent of the position; the former finding
+//                                        "join-rounding-tie" is repaired, its witnesses are in corpus/C07.ops)
+//   C19:polyline-width1                  width 1: the picture is the `points()` set and pixels() = points()
+//   C02:outside-bbox:thick-triangle, C02:transparent-draws:thick-triangle, C01:pixels-vs-draw:thick-triangle,
+//   C07:draw-not-shifted:thick-triangle, C07:bbox-not-shifted:thick-triangle, C07:translate-mut-differs:thick-triangle
+//                                        the same predicates for the triangle moved by (dx,dy) against the unmoved one
+//   C19:tri-outline                      width 1 with a stroke colour: the stroke-coloured pixels are the union of the
+//                                        three edge lines' `Line::points()`, each edge in one of its two orientations
+//                                        (the predicate of the `tri` module)
+// =============================================================================================
+
+const LAT_X: [i32; 5] = [-4, -1, 0, 2, 6];
+const LAT_Y: [i32; 5] = [-5, -2, 0, 1, 3];
+const OFFS: [(i32, i32); 7] = [(0, 0), (1, 0), (0, -1), (-7, -9), (5, 3), (-3, 4), (64, -33)];
+
+const SKELETON_BASES: [[(i32, i32); 3]; 8] = [
+    [(-1, -5), (2, 0), (6, 3)],
+    [(0, -5), (2, -2), (6, 1)],
+    [(-4, 0), (-1, -2), (2, 0)],
+    [(-4, 1), (0, -2), (2, -5)],
+    [(2, 1), (0, -2), (2, -5)],
+    [(-4, 3), (-1, 1), (2, 3)],
+    [(-1, 3), (2, 1), (6, -5)],
+    [(-5, -4), (-1, 5), (3, 2)],
+];
+
+fn poly_op(tr: (i32, i32), vs: &[(i32, i32)], w: u32) -> String {
+    let mut s = format!("thick.polyline {} {} {}", tr.0, tr.1, vs.len());
+    for v in vs {
+        s.push_str(&format!(" {} {}", v.0, v.1));
+    }
+    s.push_str(&format!(" {}", w));
+    s
+}
+
+fn offset_for(pid: &str, k: usize) -> (i32, i32) {
+    if pid == "C07" {
+        OFFS[1 + k % (OFFS.len() - 1)]
+    } else {
+        OFFS[k % OFFS.len()]
+    }
+}
+
+fn generate_joins(pid: &str, tier: Tier, rng: &mut Rng, emit: &mut dyn FnMut(String)) {
+    if !(pid == "C02" || pid == "C07" || pid == "C19") {
+        return;
+    }
+    let quick = tier == Tier::Quick;
+    let widths: Vec<u32> = match (pid, quick) {
+        ("C19", _) => vec![1],
+        (_, true) => vec![2, 3, 4, 5],
+        (_, false) => vec![2, 3, 5, 7],
+    };
+    let (lx, ly): (Vec<i32>, Vec<i32>) = if quick {
+        (LAT_X.to_vec(), LAT_Y.to_vec())
+    } else {
+        (vec![-7, -4, -1, 0, 2, 6], vec![-8, -5, -2, 0, 1, 3])
+    };
+    let mut lat: Vec<(i32, i32)> = Vec::new();
+    for &y in &ly {
+        for &x in &lx {
+            lat.push((x, y));
+        }
+    }
+    let mut k = 0usize;
+    // degenerate vertex counts
+    for &w in &widths {
+        emit(poly_op(offset_for(pid, 0), &[], w));
+        emit(poly_op(offset_for(pid, 1), &[(2, -3)], w));
+    }
+    // all polylines with 2 and 3 vertices on the lattice (repeated vertices, reversals and
+    // colinear triples included)
+    for &a in &lat {
+        for &b in &lat {
+            for &w in &widths {
+                k += 1;
+                emit(poly_op(offset_for(pid, k), &[a, b], w));
+            }
+        }
+    }
+    for &a in &lat {
+        for &b in &lat {
+            for &c in &lat {
+                for &w in &widths {
+                    k += 1;
+                    emit(poly_op(offset_for(pid, k), &[a, b, c], w));
+                }
+            }
+        }
+    }
+    // a sample of 4- and 5-vertex ones: arbitrary, closed-looking (last = first), self-overlapping
+    // (going back over a segment), zigzags
+    let nsample = if quick { 1200 } else { 12_000 };
+    for i in 0..nsample {
+        let n = if i % 4 == 3 { 5 } else { 4 };
+        let mut vs: Vec<(i32, i32)> = (0..n).map(|_| *rng.pick(&lat)).collect();
+        match i % 5 {
+            1 => {
+                let f = vs[0];
+                *vs.last_mut().unwrap() = f; // closed-looking
+            }
+            2 => {
+                vs[2] = vs[0]; // a -> b -> a -> ..
+            }
+            3 => {
+                vs[2] = vs[1]; // repeated vertex in the middle
+            }
+            _ => {}
+        }
+        let w = *rng.pick(&widths);
+        k += 1;
+        emit(poly_op(offset_for(pid, k), &vs, w));
+    }
+    // skeleton segments (a rounded miter of a width-2 stroke whose two corners coincide) are rare
+    // (about 2 per 1000 random small polylines): known ones, continued by every lattice point, in
+    // both directions
+    if pid != "C19" {
+        for base in SKELETON_BASES {
+            for &d in &lat {
+                k += 1;
+                let fwd = [base[0], base[1], base[2], d];
+                emit(poly_op(offset_for(pid, k), &fwd, 2));
+                let back = [d, base[2], base[1], base[0]];
+                emit(poly_op(offset_for(pid, k + 1), &back, 2));
+            }
+        }
+    }
+    generate_triangles(pid, tier, rng, emit);
+    // seeded random polylines within +-60
+    let nrand = if quick { 400 } else { 4000 };
+    for _ in 0..nrand {
+        let n = rng.range(2, 6) as usize;
+        let vs: Vec<(i32, i32)> = (0..n).map(|_| (rng.range(-60, 60) as i32, rng.range(-60, 60) as i32)).collect();
+        let w = if pid == "C19" { 1 } else { rng.range(2, 9) as u32 };
+        let tr = (rng.range(-80, 80) as i32, rng.range(-80, 80) as i32);
+        emit(poly_op(tr, &vs, w));
+    }
+}
+
+fn fmt_draw_log(log: &[Call]) -> String {
+    if log.is_empty() {
+        return "-".into();
+    }
+    if let [Call::DrawIter(v)] = log {
+        let pts: Vec<Point> = v.iter().map(|((x, y), _)| Point::new(*x, *y)).collect();
+        return format!("di:{}", pts_digest(&pts));
+    }
+    let mut pts = Vec::new();
+    for c in log {
+        match c {
+            Call::FillSolid(r, _) => {
+                pts.push(r.top_left);
+                pts.push(Point::new(r.size.width as i32, r.size.height as i32));
+            }
+            _ => return "mixed".into(),
+        }
+    }
+    format!("fs:{}", pts_digest(&pts))
+}
+
+fn shift_map(m: &PMap, d: Point) -> PMap {
+    m.iter().map(|((y, x), c)| ((y + d.y, x + d.x), *c)).collect()
+}
+
+/// picture (on an unbounded draw_iter-only target) and bounding box of a stroked polyline
+fn poly_picture(vs: &[Point], tr: Point, w: u32) -> (PMap, Rectangle) {
+    let styled = Polyline::new(vs).translate(tr).into_styled(PrimitiveStyle::with_stroke(BinaryColor::On, w));
+    let mut r1 = R1::<BinaryColor>::unbounded();
+    styled.draw(&mut r1).unwrap();
+    (r1.rec.map, styled.bounding_box())
+}
+
+fn map_diff(a: &PMap, b: &PMap) -> usize {
+    a.iter().filter(|(k, v)| b.get(k) != Some(v)).count() + b.iter().filter(|(k, v)| a.get(k) != Some(v)).count()
+}
+
+fn exec_polyline(t: &mut Toks, op: &str, ctx: &mut Ctx) -> String {
+    let tr = t.point();
+    let n = t.usize();
+    let vs: Vec<Point> = (0..n).map(|_| t.point()).collect();
+    let w = t.u32();
+    let style = PrimitiveStyle::with_stroke(BinaryColor::On, w);
+    let styled = Polyline::new(&vs).translate(tr).into_styled(style);
+    let bb = styled.bounding_box();
+    let mut r2 = R2::<BinaryColor>::unbounded();
+    styled.draw(&mut r2).unwrap();
+    let px: Vec<Point> = styled.pixels().map(|Pixel(p, _)| p).collect();
+    ctx.count(&format!("polyline:n={}", n.min(6)));
+    ctx.count(&format!("polyline:w={}", w.min(10)));
+    if !r2.rec.map.is_empty() && (ctx.pid != "C07" || tr != Point::zero()) {
+        ctx.nontrivial(op);
+    }
+
+    // C02
+    let out: Vec<_> = r2.rec.map.keys().filter(|(y, x)| !bb.contains(Point::new(*x, *y))).collect();
+    ctx.expect(out.is_empty(), "C02:outside-bbox:thick-polyline", || {
+        format!("{} of {} px outside bounding_box {} e.g. ({},{})", out.len(), r2.rec.map.len(), fmt_rect(&bb), out[0].1, out[0].0)
+    });
+    let pxset: PMap = px.iter().map(|p| ((p.y, p.x), 1u32)).collect();
+    ctx.expect(pxset == r2.rec.map, "C01:pixels-vs-draw:thick-polyline", || {
+        format!("draw() {} px, pixels() {} px", r2.rec.map.len(), pxset.len())
+    });
+
+    // C07, `translate` field
+    let (m0, bb0) = poly_picture(&vs, Point::zero(), w);
+    let (mt, bbt) = poly_picture(&vs, tr, w);
+    ctx.expect(mt == shift_map(&m0, tr) && mt == r2.rec.map, "C07:translate-field:thick-polyline", || {
+        format!("{} px vs {} px, {} differing entries", mt.len(), m0.len(), map_diff(&mt, &shift_map(&m0, tr)))
+    });
+    let bb_shift_ok = |b0: &Rectangle, bd: &Rectangle| {
+        if !b0.is_zero_sized() {
+            *bd == Rectangle::new(b0.top_left + tr, b0.size)
+        } else {
+            bd.is_zero_sized()
+        }
+    };
+    ctx.expect(bb_shift_ok(&bb0, &bbt) && bbt == bb, "C07:translate-field:thick-polyline", || format!("box {} -> {}", fmt_rect(&bb0), fmt_rect(&bbt)));
+    {
+        let mut pm = Polyline::new(&vs);
+        pm.translate_mut(tr);
+        let sm = pm.into_styled(style);
+        let mut r1 = R1::<BinaryColor>::unbounded();
+        sm.draw(&mut r1).unwrap();
+        ctx.expect(r1.rec.map == mt && sm.bounding_box() == bbt, "C07:translate-mut-differs:thick-polyline", || "translate_mut and translate differ".into());
+    }
+    // C07, moved vertices
+    let moved: Vec<Point> = vs.iter().map(|v| *v + tr).collect();
+    let (mv, bbv) = poly_picture(&moved, Point::zero(), w);
+    let want = shift_map(&m0, tr);
+    let pic_ok = mv == want;
+    let box_ok = bb_shift_ok(&bb0, &bbv);
+    ctx.count(if pic_ok && box_ok { "polyline:moved-vertices-same" } else { "polyline:moved-vertices-differ" });
+    ctx.expect(pic_ok, "C07:draw-not-shifted:thick-polyline", || {
+        format!("moved vertices: {} px vs {} px, {} differing entries", mv.len(), want.len(), map_diff(&mv, &want))
+    });
+    ctx.expect(box_ok, "C07:bbox-not-shifted:thick-polyline", || format!("moved vertices: box {} -> {}", fmt_rect(&bb0), fmt_rect(&bbv)));
+
+    // C19, one-pixel polylines
+    if w == 1 {
+        let pts: Vec<Point> = Polyline::new(&vs).translate(tr).points().collect();
+        let ptset: PMap = pts.iter().map(|p| ((p.y, p.x), 1u32)).collect();
+        ctx.expect(ptset == r2.rec.map && px == pts, "C19:polyline-width1", || {
+            format!("points() {} distinct, draw() {} px, pixels() {} items", ptset.len(), r2.rec.map.len(), px.len())
+        });
+    }
+    let pv: Vec<joins_port::P> = vs.iter().map(|p| (p.x as i64, p.y as i64)).collect();
+    let (kinds, skeletons) = joins_port::polyline_kinds(&pv, w);
+    if w >= 1 {
+        for ch in kinds.chars().filter(|c| *c != '-') {
+            ctx.count(&format!("polyline:join:{}", kind_name(ch)));
+        }
+        ctx.count_n("polyline:skeleton-segments", skeletons as u64);
+        if n >= 2 {
+            ctx.count_n("polyline:segments", (n - 1) as u64);
+        }
+    }
+    format!("bb={} k={} s={} draw={} px={}", fmt_rect(&bb), kinds, skeletons, fmt_draw_log(&r2.rec.log), pts_digest(&px))
+}
+
+fn kind_name(c: char) -> &'static str {
+    match c {
+        'M' => "miter",
+        'b' => "bevel-left",
+        'B' => "bevel-right",
+        'd' => "degenerate-left",
+        'D' => "degenerate-right",
+        'C' => "colinear",
+        _ => "other",
+    }
+}
+
+/// Port (i64 arithmetic on coordinate pairs) of the PRIVATE join arithmetic of /repo:
+/// `BresenhamParameters`, `Bresenham::{next_all, previous_all}`, `ParallelsIterator`,
+/// `Line::extents`, `LinearEquation`, `IntersectionParams`, `LineJoin::{start, end, from_points}`,
+/// `Triangle::is_collapsed`. It is used ONLY for the input distribution (which join kinds, skeleton
+/// segments and collapsed triangles the generated inputs exercise): the kinds are printed into the
+/// result line (`k=..`), where the correspondence compares them with the Lean model's own
+/// classification, so the counters are what the tied model says, not an untested proxy.
+pub mod joins_port {
+    pub type P = (i64, i64);
+    fn add(a: P, b: P) -> P {
+        (a.0 + b.0, a.1 + b.1)
+    }
+    fn sub(a: P, b: P) -> P {
+        (a.0 - b.0, a.1 - b.1)
+    }
+    pub type L = (P, P);
+
+    #[derive(Clone, Copy)]
+    struct Params {
+        thr: i64,
+        step_major: i64,
+        step_minor: i64,
+        pos_major: P,
+        pos_minor: P,
+    }
+    fn params(l: L) -> Params {
+        let d = sub(l.1, l.0);
+        let dir = (if d.0 >= 0 { 1 } else { -1 }, if d.1 >= 0 { 1 } else { -1 });
+        let d = (d.0.abs(), d.1.abs());
+        if d.1 >= d.0 {
+            Params { thr: d.1, step_major: 2 * d.0, step_minor: 2 * d.1, pos_major: (0, dir.1), pos_minor: (dir.0, 0) }
+        } else {
+            Params { thr: d.0, step_major: 2 * d.1, step_minor: 2 * d.0, pos_major: (dir.0, 0), pos_minor: (0, dir.1) }
+        }
+    }
+    impl Params {
+        fn increase(&self, e: &mut i64) -> bool {
+            *e += self.step_major;
+            if *e > self.thr {
+                *e -= self.step_minor;
+                true
+            } else {
+                false
+            }
+        }
+        fn decrease(&self, e: &mut i64) -> bool {
+            *e -= self.step_major;
+            if *e <= -self.thr {
+                *e += self.step_minor;
+                true
+            } else {
+                false
+            }
+        }
+        fn mirror(&self) -> bool {
+            if self.pos_major.0 != 0 {
+                self.pos_major.0 == self.pos_minor.1
+            } else {
+                self.pos_major.1 == -self.pos_minor.0
+            }
+        }
+    }
+    #[derive(Clone, Copy)]
+    struct Br {
+        p: P,
+        e: i64,
+    }
+    /// (point, is_extra)
+    fn next_all(b: &mut Br, q: &Params) -> (P, bool) {
+        let mut point = b.p;
+        if b.e > q.thr {
+            b.p = add(b.p, q.pos_minor);
+            b.e -= q.step_minor;
+            if q.mirror() {
+                point = sub(add(point, q.pos_minor), q.pos_major);
+            }
+            (point, true)
+        } else {
+            b.p = add(b.p, q.pos_major);
+            b.e += q.step_major;
+            (point, false)
+        }
+    }
+    fn previous_all(b: &mut Br, q: &Params) -> (P, bool) {
+        let mut point = b.p;
+        if b.e <= -q.thr {
+            b.p = sub(b.p, q.pos_minor);
+            b.e += q.step_minor;
+            if !q.mirror() {
+                point = add(sub(point, q.pos_minor), q.pos_major);
+            }
+            (point, true)
+        } else {
+            b.p = sub(b.p, q.pos_major);
+            b.e -= q.step_major;
+            (point, false)
+        }
+    }
+    /// stroke offset: 0 = None, 1 = Left, 2 = Right
+    struct Par {
+        par: Params,
+        perp: Params,
+        acc: i64,
+        thr: i64,
+        flip: bool,
+        left: Br,
+        left_error: i64,
+        right: Br,
+        right_error: i64,
+        next_left: bool,
+        offset: u8,
+    }
+    impl Par {
+        fn new(l: L, thickness: i64, offset: u8) -> Par {
+            let start = l.0;
+            let l = if l.0 == l.1 { ((0, 0), (1, 0)) } else { l };
+            let par = params(l);
+            let d = sub(l.1, l.0);
+            let perp = params((l.0, add(l.0, (d.1, -d.0))));
+            let thr = (thickness * 2) * (thickness * 2) * (d.0 * d.0 + d.1 * d.1);
+            let acc = (par.step_minor + par.step_major) / 2;
+            let flip = perp.pos_minor == (-par.pos_major.0, -par.pos_major.1);
+            let next_left = offset == 1;
+            let mut s = Par { par, perp, acc, thr, flip, left: Br { p: start, e: 0 }, left_error: 0, right: Br { p: start, e: 0 }, right_error: 0, next_left, offset };
+            s.next_parallel(!next_left);
+            s
+        }
+        fn next_parallel(&mut self, left: bool) -> ((P, bool), i64) {
+            let decrease_error = if left { self.flip } else { !self.flip };
+            loop {
+                let point = if left { next_all(&mut self.left, &self.perp) } else { previous_all(&mut self.right, &self.perp) };
+                let par = self.par;
+                let error = if left { &mut self.left_error } else { &mut self.right_error };
+                if !point.1 {
+                    return (point, *error);
+                }
+                if decrease_error {
+                    let before = *error;
+                    if par.decrease(error) {
+                        return (point, before);
+                    }
+                } else if par.increase(error) {
+                    return (point, *error);
+                }
+            }
+        }
+        /// (start point of the parallel, is_extra)
+        fn next(&mut self) -> Option<(P, bool)> {
+            if self.acc * self.acc > self.thr {
+                return None;
+            }
+            let (point, _error) = self.next_parallel(self.next_left);
+            self.acc += if point.1 { self.perp.step_major } else { self.perp.step_minor };
+            if self.offset == 0 {
+                self.next_left = !self.next_left;
+            }
+            Some(point)
+        }
+    }
+    /// `Line::extents`: (left line, right line)
+    pub fn extents(l: L, thickness: u32, offset: u8) -> (L, L) {
+        let mut it = Par::new(l, thickness.min(i32::MAX as u32) as i64, offset);
+        let reduce = add(it.par.pos_major, it.par.pos_minor);
+        let mut left = (l.0, false);
+        let mut right = (l.0, false);
+        match offset {
+            0 => loop {
+                match it.next() {
+                    Some(r) => right = r,
+                    None => break,
+                }
+                match it.next() {
+                    Some(r) => left = r,
+                    None => break,
+                }
+            },
+            1 => {
+                while let Some(r) = it.next() {
+                    left = r;
+                }
+            }
+            _ => {
+                while let Some(r) = it.next() {
+                    right = r;
+                }
+            }
+        }
+        let d = sub(l.1, l.0);
+        let mk = |s: (P, bool)| -> L { (s.0, sub(add(s.0, d), if s.1 { reduce } else { (0, 0) })) };
+        (mk(left), mk(right))
+    }
+
+    fn dot(a: P, b: P) -> i64 {
+        a.0 * b.0 + a.1 * b.1
+    }
+    fn det(a: P, b: P) -> i64 {
+        a.0 * b.1 - a.1 * b.0
+    }
+    /// `LinearEquation::from_line`: (normal vector, origin distance)
+    fn le(l: L) -> (P, i64) {
+        let d = sub(l.1, l.0);
+        let n = (-d.1, d.0);
+        (n, dot(l.0, n))
+    }
+    /// distance <= 0 for `left`, >= 0 otherwise
+    fn check_side(e: (P, i64), p: P, left: bool) -> bool {
+        let dist = dot(p, e.0) - e.1;
+        if left {
+            dist <= 0
+        } else {
+            dist >= 0
+        }
+    }
+    /// `IntersectionParams::from_lines(l1, l2)` + `intersection()` + `nearly_colinear_has_error()`:
+    /// `None` = colinear, else (point, outer side is left, has_error)
+    fn intersect(l1: L, l2: L) -> Option<(P, bool, bool)> {
+        let (e1, e2) = (le(l1), le(l2));
+        let den = det(e1.0, e2.0);
+        if den == 0 {
+            return None;
+        }
+        let xn = e1.1 * e2.0 .1 - e2.1 * e1.0 .1;
+        let yn = e1.0 .0 * e2.1 - e2.0 .0 * e1.1;
+        let sign = den.signum();
+        let d = den.abs();
+        let rd = |n: i64| (2 * n * sign + d).div_euclid(2 * d).clamp(i32::MIN as i64, i32::MAX as i64);
+        let has_error = den * den < dot(sub(l1.1, l1.0), sub(l2.1, l2.0)).abs();
+        Some(((rd(xn), rd(yn)), den < 0, has_error))
+    }
+
+    #[derive(Clone, Copy, PartialEq, Debug)]
+    pub struct Join {
+        /// M miter, b / B bevel (outer side left / right), d / D degenerate (left / right), C colinear, S start, E end
+        pub kind: char,
+        pub first_edge_end: (P, P),    // (left, right)
+        pub second_edge_start: (P, P), // (left, right)
+    }
+    pub fn join_start(a: P, b: P, w: u32, off: u8) -> Join {
+        let (l, r) = extents((a, b), w, off);
+        Join { kind: 'S', first_edge_end: (l.0, r.0), second_edge_start: (l.0, r.0) }
+    }
+    pub fn join_end(a: P, b: P, w: u32, off: u8) -> Join {
+        let (l, r) = extents((a, b), w, off);
+        Join { kind: 'E', first_edge_end: (l.1, r.1), second_edge_start: (l.1, r.1) }
+    }
+    pub fn join(start: P, mid: P, end: P, w: u32, off: u8) -> Join {
+        let (fl, fr) = extents((start, mid), w, off);
+        let (sl, sr) = extents((mid, end), w, off);
+        let colinear = Join { kind: 'C', first_edge_end: (fl.1, fr.1), second_edge_start: (sl.0, sr.0) };
+        let (li, outer_left) = match intersect(sl, fl) {
+            Some((p, ol, err)) => (if !err { p } else { fl.1 }, ol),
+            None => return colinear,
+        };
+        let ri = match intersect(sr, fr) {
+            Some((p, _, err)) => {
+                if !err {
+                    p
+                } else {
+                    fr.1
+                }
+            }
+            None => return colinear,
+        };
+        let self_intersection = if outer_left { check_side(le(fr), sr.1, true) } else { check_side(le(fl), sl.1, false) };
+        if !self_intersection {
+            let o = sub(if outer_left { li } else { ri }, mid);
+            let limit = (w as i64 * 2) * (w as i64 * 2);
+            if o.0 * o.0 + o.1 * o.1 <= limit {
+                Join { kind: 'M', first_edge_end: (li, ri), second_edge_start: (li, ri) }
+            } else if outer_left {
+                Join { kind: 'b', first_edge_end: (fl.1, ri), second_edge_start: (sl.0, ri) }
+            } else {
+                Join { kind: 'B', first_edge_end: (li, fr.1), second_edge_start: (li, sr.0) }
+            }
+        } else {
+            Join { kind: if outer_left { 'd' } else { 'D' }, first_edge_end: (fl.1, fr.1), second_edge_start: (sl.0, sr.0) }
+        }
+    }
+    /// kinds of the interior joins of an open polyline and the number of skeleton segments
+    /// (`ThickSegment::is_skeleton`: the start join's `first_edge_end.left == .right`)
+    pub fn polyline_kinds(vs: &[P], w: u32) -> (String, usize) {
+        let mut kinds = String::new();
+        let mut skeletons = 0;
+        if vs.len() >= 2 {
+            let mut start = join_start(vs[0], vs[1], w, 0);
+            for i in 0..vs.len() - 1 {
+                if start.first_edge_end.0 == start.first_edge_end.1 {
+                    skeletons += 1;
+                }
+                if i + 2 < vs.len() {
+                    let j = join(vs[i], vs[i + 1], vs[i + 2], w, 0);
+                    kinds.push(j.kind);
+                    start = j;
+                }
+            }
+        }
+        if kinds.is_empty() {
+            kinds.push('-');
+        }
+        (kinds, skeletons)
+    }
+    /// `sorted_clockwise`, the kinds of the three joins `from_points(v[i], v[i+1], v[i+2])`, and
+    /// `is_collapsed(w, offset)` of the sorted triangle
+    pub fn triangle_kinds(v: [P; 3], w: u32, off: u8) -> (String, bool) {
+        let area = -v[1].1 * v[2].0 + v[0].1 * (v[2].0 - v[1].0) + v[0].0 * (v[1].1 - v[2].1) + v[1].0 * v[2].1;
+        let t: [P; 3] = if area < 0 {
+            [v[1], v[0], v[2]]
+        } else if area > 0 {
+            v
+        } else {
+            let mut s = v;
+            s.sort_by_key(|p| (p.1, p.0));
+            s
+        };
+        let mut kinds = String::new();
+        for i in 0..3 {
+            kinds.push(join(t[i % 3], t[(i + 1) % 3], t[(i + 2) % 3], w, off).kind);
+        }
+        let joins = [join(t[2], t[0], t[1], w, off), join(t[0], t[1], t[2], w, off), join(t[1], t[2], t[0], w, off)];
+        let collapsed = joins.iter().enumerate().any(|(i, j)| {
+            if j.kind == 'd' || j.kind == 'D' {
+                return true;
+            }
+            let inner = j.first_edge_end.1;
+            let opposite = extents((t[(i + 1) % 3], t[(i + 2) % 3]), w, off).1;
+            check_side(le(opposite), inner, true)
+        });
+        (kinds, collapsed)
+    }
+}
+
+// ---------------------------------------------------------------------------------------------
+// stroked triangles
+// ---------------------------------------------------------------------------------------------
+fn tri_op(d: (i32, i32), v: &[(i32, i32); 3], w: u32, align: u32, fill: Option<u32>, stroke: Option<u32>) -> String {
+    let c = |o: Option<u32>| o.map(|n| n.to_string()).unwrap_or_else(|| "-".into());
+    format!(
+        "thick.triangle {} {} {} {} {} {} {} {} {} {} {} {}",
+        d.0, d.1, v[0].0, v[0].1, v[1].0, v[1].1, v[2].0, v[2].1, w, align, c(fill), c(stroke)
+    )
+}
+
+const TRI_STYLES: [(Option<u32>, Option<u32>); 3] = [(None, Some(1)), (Some(2), Some(1)), (Some(2), None)];
+
+fn generate_triangles(pid: &str, tier: Tier, rng: &mut Rng, emit: &mut dyn FnMut(String)) {
+    let quick = tier == Tier::Quick;
+    let widths: Vec<u32> = match (pid, quick) {
+        ("C19", _) => vec![1],
+        (_, true) => vec![1, 2, 3, 4],
+        (_, false) => vec![0, 1, 2, 3, 5],
+    };
+    let (lx, ly): (Vec<i32>, Vec<i32>) = if quick { (vec![-3, -1, 0, 4], vec![-4, 0, 1, 3]) } else { (vec![-5, -3, -1, 0, 4], vec![-6, -4, 0, 1, 3]) };
+    let mut lat: Vec<(i32, i32)> = Vec::new();
+    for &y in &ly {
+        for &x in &lx {
+            lat.push((x, y));
+        }
+    }
+    let mut k = 0usize;
+    for &a in &lat {
+        for &b in &lat {
+            for &c in &lat {
+                for &w in &widths {
+                    for align in 0..3u32 {
+                        k += 1;
+                        let (fill, stroke) = if pid == "C19" { TRI_STYLES[k % 2] } else { TRI_STYLES[k % 3] };
+                        emit(tri_op(offset_for(pid, k / 3), &[a, b, c], w, align, fill, stroke));
+                    }
+                }
+            }
+        }
+    }
+    // (the model walks every outline line once per row: ~8 ms per random op)
+    let nrand = if quick { 400 } else { 4000 };
+    for _ in 0..nrand {
+        let mut p = || (rng.range(-60, 60) as i32, rng.range(-60, 60) as i32);
+        let v = [p(), p(), p()];
+        let w = if pid == "C19" { 1 } else { rng.range(0, 12) as u32 };
+        let align = rng.below(3) as u32;
+        let (fill, stroke) = *rng.pick(&TRI_STYLES);
+        let d = (rng.range(-80, 80) as i32, rng.range(-80, 80) as i32);
+        emit(tri_op(d, &v, w, align, fill, stroke));
+    }
+}
+
+fn tri_style(w: u32, align: u32, fill: Option<u32>, stroke: Option<u32>) -> PrimitiveStyle<Rgb565> {
+    let mut b = PrimitiveStyleBuilder::new().stroke_width(w).stroke_alignment(match align {
+        0 => StrokeAlignment::Inside,
+        1 => StrokeAlignment::Center,
+        _ => StrokeAlignment::Outside,
+    });
+    if let Some(c) = fill {
+        b = b.fill_color(Rgb565::from_num(c));
+    }
+    if let Some(c) = stroke {
+        b = b.stroke_color(Rgb565::from_num(c));
+    }
+    b.build()
+}
+
+fn exec_triangle(t: &mut Toks, op: &str, ctx: &mut Ctx) -> String {
+    let d = t.point();
+    let v = [t.point(), t.point(), t.point()];
+    let w = t.u32();
+    let align = t.u32();
+    let col = |s: &str| if s == "-" { None } else { Some(s.parse::<u32>().expect("bad colour")) };
+    let fill = col(t.str());
+    let stroke = col(t.str());
+    let style = tri_style(w, align, fill, stroke);
+    let tri0 = Triangle::new(v[0], v[1], v[2]);
+    let tri = tri0.translate(d);
+    let styled = tri.into_styled(style);
+    let bb = styled.bounding_box();
+    let mut r2 = R2::<Rgb565>::unbounded();
+    styled.draw(&mut r2).unwrap();
+    let px: Vec<(Point, u32)> = styled.pixels().map(|Pixel(p, c)| (p, c.num())).collect();
+    let m = &r2.rec.map;
+    let area2 = (v[1].x - v[0].x) as i64 * (v[2].y - v[0].y) as i64 - (v[1].y - v[0].y) as i64 * (v[2].x - v[0].x) as i64;
+    ctx.count(&format!("triangle:w={}", w.min(12)));
+    ctx.count(&format!("triangle:align={}", align));
+    ctx.count(match (fill.is_some(), stroke.is_some()) {
+        (true, true) => "triangle:fill+stroke",
+        (true, false) => "triangle:fill-only",
+        (false, true) => "triangle:stroke-only",
+        _ => "triangle:no-colour",
+    });
+    ctx.count(if area2 == 0 { "triangle:zero-area" } else if area2 > 0 { "triangle:cw" } else { "triangle:ccw" });
+    if fill.is_some() && stroke.is_some() && w >= 2 && !m.is_empty() && !m.values().any(|c| Some(*c) == fill) {
+        ctx.count("triangle:stroke-covers-fill");
+    }
+    if !m.is_empty() && (ctx.pid != "C07" || d != Point::zero()) {
+        ctx.nontrivial(op);
+    }
+    let transparent = fill.is_none() && (stroke.is_none() || w == 0);
+
+    // C02
+    let out: Vec<_> = m.keys().filter(|(y, x)| !bb.contains(Point::new(*x, *y))).collect();
+    ctx.expect(out.is_empty(), "C02:outside-bbox:thick-triangle", || {
+        format!("{} of {} px outside bounding_box {} e.g. ({},{})", out.len(), m.len(), fmt_rect(&bb), out[0].1, out[0].0)
+    });
+    if transparent {
+        ctx.expect(m.is_empty() && px.is_empty(), "C02:transparent-draws:thick-triangle", || format!("{} px drawn with a transparent style", m.len()));
+    }
+    let mut mp = PMap::new();
+    for (p, c) in &px {
+        mp.insert((p.y, p.x), *c);
+    }
+    ctx.expect(mp == *m, "C01:pixels-vs-draw:thick-triangle", || format!("draw() {} px, pixels() {} px, {} differing entries", m.len(), mp.len(), map_diff(m, &mp)));
+
+    // C07: the moved triangle against the unmoved one
+    let s0 = tri0.into_styled(style);
+    let mut r0 = R1::<Rgb565>::unbounded();
+    s0.draw(&mut r0).unwrap();
+    let bb0 = s0.bounding_box();
+    let want = shift_map(&r0.rec.map, d);
+    let mut r1 = R1::<Rgb565>::unbounded();
+    styled.draw(&mut r1).unwrap();
+    ctx.expect(r1.rec.map == want && r1.rec.map == *m, "C07:draw-not-shifted:thick-triangle", || {
+        format!("{} px vs {} px, {} differing entries", r1.rec.map.len(), want.len(), map_diff(&r1.rec.map, &want))
+    });
+    let box_ok = if !bb0.is_zero_sized() { bb == Rectangle::new(bb0.top_left + d, bb0.size) } else { bb.is_zero_sized() };
+    ctx.expect(box_ok, "C07:bbox-not-shifted:thick-triangle", || format!("{} -> {}", fmt_rect(&bb0), fmt_rect(&bb)));
+    {
+        let mut sm = s0;
+        sm.translate_mut(d);
+        let mut rm = R1::<Rgb565>::unbounded();
+        sm.draw(&mut rm).unwrap();
+        ctx.expect(rm.rec.map == r1.rec.map && sm.bounding_box() == bb, "C07:translate-mut-differs:thick-triangle", || "translate_mut and translate differ".into());
+    }
+
+    // C19: one-pixel outline = the three edge lines
+    if w == 1 && stroke.is_some() && stroke != fill {
+        let set: HashSet<(i32, i32)> = m.iter().filter(|(_, c)| Some(**c) == stroke).map(|((y, x), _)| (*x, *y)).collect();
+        let vv = tri.vertices;
+        let line = |a: Point, b: Point| -> Vec<Point> { Line::new(a, b).points().collect() };
+        let edges = [(vv[0], vv[1]), (vv[1], vv[2]), (vv[2], vv[0])];
+        let mut matched = false;
+        for mask in 0..8u32 {
+            let mut u: HashSet<(i32, i32)> = HashSet::new();
+            for (k, (a, b)) in edges.iter().enumerate() {
+                let l = if mask & (1 << k) == 0 { line(*a, *b) } else { line(*b, *a) };
+                u.extend(l.iter().map(|p| (p.x, p.y)));
+            }
+            if u == set {
+                matched = true;
+                break;
+            }
+        }
+        ctx.expect(matched, "C19:tri-outline", || {
+            format!("{:?} align {}: the {} stroke pixels are not the union of the three edge lines in any orientation", vv, align, set.len())
+        });
+    }
+
+    let draw = {
+        let mut pts = Vec::new();
+        let mut ok = true;
+        for c in &r2.rec.log {
+            match c {
+                Call::FillSolid(r, c) if r.size.height == 1 => {
+                    pts.push(r.top_left);
+                    pts.push(Point::new(r.size.width as i32, *c as i32));
+                }
+                _ => ok = false,
+            }
+        }
+        if !ok {
+            "mixed".to_string()
+        } else if pts.is_empty() {
+            "-".to_string()
+        } else {
+            format!("fs:{}", pts_digest(&pts))
+        }
+    };
+    let mut pp = Vec::with_capacity(px.len() * 2);
+    for (p, c) in &px {
+        pp.push(*p);
+        pp.push(Point::new(*c as i32, 0));
+    }
+    let tv = tri.vertices.map(|p| (p.x as i64, p.y as i64));
+    let (kinds, collapsed) = joins_port::triangle_kinds(tv, w, match align {
+        0 => 2, // Inside -> StrokeOffset::Right
+        1 => 0, // Center -> None
+        _ => 1, // Outside -> Left
+    });
+    if w >= 1 {
+        for ch in kinds.chars() {
+            ctx.count(&format!("triangle:join:{}", kind_name(ch)));
+        }
+        if collapsed {
+            ctx.count(if align == 0 { "triangle:collapsed-inside" } else { "triangle:is_collapsed-other-alignment" });
+        }
+    }
+    format!("bb={} k={} c={} draw={} px={}", fmt_rect(&bb), kinds, collapsed as u8, draw, pts_digest(&pp))
 }
